@@ -14,7 +14,8 @@ arrays carry the conjunction of the `ok` of EVERY array bound on the way).  What
     (`List (List Nat)`: non-negative indices only).  A function that calls `np.empty` gets a FIRST extra parameter
     `junk : Nat → Nat → Nat → α`: `junk n` is the content of the n-th uninitialised array.
   * A function may call a function translated before it (`soft_threshold(0, x)`, `linear_prox_grad(…)`,
-    `mlp_prox_grad(…)`): the call becomes an application of the generated definition.  A function returning a tuple of two
+    `mlp_prox_grad(…)`): the call becomes an application of the generated definition.  A call of any OTHER top-level
+    function of the file (a helper such as `_as_single_row`) is inlined, as in geminis.py (`Unit.inline`).  A function returning a tuple of two
     arrays yields an `Arr α × Arr α`; `a, b = f(…)` binds the pair, then its components.
   * `for g in groups:` becomes `groups.foldl (fun state g => …) state0`: the state is made of the arrays the body writes
     into with `X[g] = …` (one array, or a pair); every other name assigned in the body is local to one iteration (reading
@@ -23,8 +24,9 @@ arrays carry the conjunction of the `ok` of EVERY array bound on the way).  What
   * New expressions: `x.shape` (as the argument of `np.empty`, `.reshape`, or unpacked: `batch, k = u.shape`),
     `np.linalg.norm(x, [ord=2,] axis=1, keepdims=True)`, `np.sort(x, axis=1)`, `x[:, ::-1]`, `np.cumsum(x, axis=1)`,
     `np.concatenate([a, b], axis=1)`, `np.arange(k + c)` / `np.arange(k)` for a shape entry `k` and a non-negative
-    integer-valued literal `c`, `np.zeros((r, c))`, `np.empty(shape)`, `np.sum(mask, axis=1, keepdims=True)` of a
-    Boolean array (an `Arr Nat`), `np.take_along_axis(x, idx, axis=1)`, `np.where(mask, scalar, array)`,
+    integer-valued literal `c`, `np.zeros((r, c))`, `np.empty(shape)`, `np.full(shape, scalar)`,
+    `np.sum(mask, axis=1, keepdims=True)` = `np.count_nonzero(mask, axis=1, keepdims=True)` of a Boolean array (an
+    `Arr Nat`), `np.take_along_axis(x, idx, axis=1)`, `np.where(mask, scalar, array)`,
     `np.where(mask, scalar, scalar)`, `np.minimum(a, b)`, `a > b` / `a < b` between arrays, `a >= scalar`,
     `.reshape((1, -1))` / `.reshape((r, c))` / `.reshape(y.shape)` of a 2-D array, `W[g]` and `W[g] = value` for the loop
     variable `g`.
@@ -34,7 +36,7 @@ import ast
 
 from . import geminis as G
 from . import tables
-from .geminis import Returned, Val
+from .geminis import Returned, Val, may_be_int, tracked
 from .tables import TranslationFailure
 
 FILE = "gemclus/sparse/_prox_grad.py"
@@ -61,6 +63,9 @@ class Unit(G.Unit):
         self.fn = fns[0]
         if self.fn.decorator_list:
             self.fail("decorated function")
+        G.check_plain_function(self, self.fn)
+        self.helpers = G.module_helpers(tree)
+        self.scopes, self.mi_stack = [], []
         self.pynames = {n.id for n in ast.walk(self.fn) if isinstance(n, ast.Name)} | {a.arg for a in self.fn.args.args}
         self.used = set(RESERVED) | {u for u in done}
         self.lets, self.oks, self.checks = [], [], []
@@ -117,6 +122,7 @@ class Unit(G.Unit):
         return self.arr(self.expr(e), e, what, 2)
 
     # ------------------------------------------------------------ expressions
+    @tracked
     def expr(self, e):
         if isinstance(e, ast.Attribute) and e.attr == "shape":
             a = self.expr(e.value)
@@ -226,7 +232,7 @@ class Unit(G.Unit):
             if v.kind != "nat":
                 self.fail("np.arange: the stop must be a shape entry, possibly plus a non-negative integer-valued literal", e)
             stop = f"({v.term} + {extra})" if extra else v.term
-            return Val("arr", f"(Arr.arange {stop})", 1, True)
+            return Val("arr", f"(Arr.arange {stop})", 1, True, mi=(x is e.args[0] or type(e.args[0].right.value) is int))
         if self.is_np(f, {"zeros", "empty"}):
             if n != 1 or e.keywords:
                 self.fail(f"np.{f.attr}: only np.{f.attr}(shape)", e)
@@ -238,13 +244,23 @@ class Unit(G.Unit):
             k = self.n_junk
             self.n_junk += 1
             return Val("arr", f"(Arr.empty (junk {k}) {r} {c})", 2, True)
-        if self.is_np(f, {"sum"}) and n >= 1:
+        if self.is_np(f, {"sum", "count_nonzero"}) and n >= 1:
             a = self.expr(e.args[0])
             if a.kind == "mask":
-                axis, keep = self.reduce_args(e, e.args[1:], "sum")
+                # the number of True entries of each row, as an integer array, under both spellings
+                axis, keep = self.reduce_args(e, e.args[1:], f.attr)
                 if a.nd != 2 or axis not in (1, -1) or not keep:
-                    self.fail("np.sum of a Boolean array: only np.sum(mask, axis=1, keepdims=True) of a 2-d mask", e)
+                    self.fail(f"np.{f.attr} of a Boolean array: only np.{f.attr}(mask, axis=1, keepdims=True) of a 2-d mask", e)
                 return Val("iarr", f"(Arr.countAxis1 {a.term})", 2, True)
+            if f.attr == "count_nonzero":
+                self.fail("np.count_nonzero of something that is not a Boolean array", e)
+            # np.sum of a float array: geminis.py (the argument is evaluated once more; expressions are pure)
+        if self.is_np(f, {"full"}):
+            if n != 2 or e.keywords:
+                self.fail("np.full: only np.full(shape, scalar)", e)
+            r, c = self.shape_of(e.args[0], "np.full")
+            fill = self.expr(e.args[1])
+            return Val("arr", f"(Arr.full {r} {c} {self.scal(fill, e, 'np.full')})", 2, True, mi=may_be_int(fill))
         if self.is_np(f, {"take_along_axis"}):
             kw = self.kwargs(e, {"axis"}, "np.take_along_axis")
             if n not in (2, 3) or (n == 3) == ("axis" in kw):
@@ -262,10 +278,11 @@ class Unit(G.Unit):
             if m.kind != "mask" or m.nd > 2 or a.kind not in ("scal", "nat"):
                 self.fail("np.where: only np.where(Boolean array, scalar, scalar or array)", e)
             s = self.scal(a, e, "np.where")
+            mi = may_be_int(a) and may_be_int(b)
             if b.kind in ("scal", "nat"):
-                return Val("arr", f"(Arr.whereSS {m.term} {s} {self.scal(b, e, 'np.where')})", m.nd, True)
+                return Val("arr", f"(Arr.whereSS {m.term} {s} {self.scal(b, e, 'np.where')})", m.nd, True, mi=mi)
             self.arr(b, e, "np.where")
-            return Val("arr", f"(Arr.whereSA {m.term} {s} {b.term})", max(m.nd, b.nd), True)
+            return Val("arr", f"(Arr.whereSA {m.term} {s} {b.term})", max(m.nd, b.nd), True, mi=mi)
         if self.is_np(f, {"minimum"}):
             if n != 2 or e.keywords:
                 self.fail("np.minimum: only np.minimum(a, b)", e)
@@ -357,6 +374,8 @@ class Unit(G.Unit):
             super().bind(state[0], Val("arr", term, 2, True), st)
 
     def stmt(self, st):
+        if self.scopes and isinstance(st, (ast.Return, ast.For, ast.While)):
+            return self.helper_stmt(st)
         if isinstance(st, ast.If):
             self.fail("branches are not supported", st)
         if isinstance(st, ast.For):
